@@ -94,7 +94,7 @@ fn main() {
             use proptest::strategy::{Strategy, ValueTree};
             let dir = args[2].clone();
             let mut runner = proptest::test_runner::TestRunner::deterministic();
-            for t in ["fz_parse", "fz_json", "fz_envelope", "fz_codec"] {
+            for t in ["fz_parse", "fz_json", "fz_envelope", "fz_codec", "fz_structured"] {
                 let _ = std::fs::create_dir_all(format!("{}/{}", dir, t));
             }
             for k in 0..24 {
@@ -118,6 +118,15 @@ fn main() {
             res.insert(7u32, (3i32, "failed".to_string()));
             std::fs::write(format!("{}/fz_codec/results", dir), aquaverif::core::encode_results(&res)).unwrap();
             std::fs::write(format!("{}/fz_codec/data", dir), &seed).unwrap();
+            for k in 0..26u32 {
+                // one seed per catalog kind
+                let kind = (((k << 16) / 26) + 1) as u16;
+                let mut b = vec![];
+                for x in [kind, 17 * k as u16, 4099, 3 + k as u16] {
+                    b.extend_from_slice(&x.to_le_bytes());
+                }
+                std::fs::write(format!("{}/fz_structured/kind{}", dir, k), b).unwrap();
+            }
             0
         }
         "fuzzreplay" => {
